@@ -220,7 +220,7 @@ def num_case(case):
         c = case["cls"]
         if c in DISCRETE:
             lo, hi = discrete_range(case)
-            total, k, tail = 0.0, lo, 0
+            total, k, tail, capped = 0.0, lo, 0, False
             while True:
                 try:
                     p = obj.probability(k)
@@ -237,10 +237,13 @@ def num_case(case):
                         break
                 else:
                     tail = tail + 1 if p < 1e-18 * max(total, 1e-300) else 0
-                    if (tail >= 50 and total > 0.5) or k > 200000:
+                    if tail >= 50 and total > 0.5:
+                        break
+                    if k > 200000:
+                        capped = True          # a very long support: no verdict on the sum
                         break
             out["mass"] = total
-            if not fnd and abs(total - 1.0) > 1e-9:
+            if not fnd and not capped and abs(total - 1.0) > 1e-9:
                 fnd.append(["probabilities-do-not-sum-to-one", f"sum of probability(k) = {total!r}"])
             for kk in ([lo - 1, lo - 7] + ([hi + 1, hi + 5] if hi is not None else [])):
                 try:
@@ -352,18 +355,35 @@ def stats_case(case):
             xs.append(obj.draw())
         c = case["cls"]
         if c in DISCRETE:
+            # chi-square goodness of fit of the sample frequencies against the class's own probability(k) over the bulk
+            # of the support (cells with an expected count >= 5, the two tails pooled), as a standard-normal score
+            # (Wilson-Hilferty): a search statistic, never the verdict
             freq = {}
             for x in xs:
                 freq[x] = freq.get(x, 0) + 1
-            ks = sorted(freq)
-            tv, psum = 0.0, 0.0
-            for k in range(min(ks), max(ks) + 1):
-                p = obj.probability(k)
-                psum += p
-                tv += abs(freq.get(k, 0) / n - p)
-            tv += max(0.0, 1.0 - psum)
-            out["distance"] = 0.5 * tv
-            out["detail"] = f"total variation distance between sample frequencies and probability(k), n = {n}"
+            kmin, kmax = min(freq), max(freq)
+            lo, hi = discrete_range(case)
+            kk = list(range(max(lo, kmin - 50), (min(hi, kmax + 50) if hi is not None else kmax + 50) + 1))
+            ps = [obj.probability(k) for k in kk]
+            cells, eacc, oacc = [], 0.0, 0
+            for k, p in zip(kk, ps):
+                eacc += n * p
+                oacc += freq.get(k, 0)
+                if eacc >= 5.0:
+                    cells.append([eacc, oacc]); eacc, oacc = 0.0, 0
+            rest_e = max(0.0, n - sum(e for e, _ in cells))     # everything not covered above (both far tails)
+            rest_o = n - sum(o for _, o in cells)
+            if cells and rest_e < 5.0:
+                cells[-1][0] += rest_e; cells[-1][1] += rest_o
+            else:
+                cells.append([rest_e, rest_o])
+            chi2 = sum((o - e) ** 2 / e if e > 0 else (0.0 if o == 0 else float("inf")) for e, o in cells)
+            dof = max(1, len(cells) - 1)
+            z = ((chi2 / dof) ** (1.0 / 3.0) - (1.0 - 2.0 / (9.0 * dof))) / math.sqrt(2.0 / (9.0 * dof))
+            out["distance"] = z
+            out["kind"] = "chi2"
+            out["detail"] = (f"chi-square = {chi2:.1f} on {dof} degrees of freedom (standard-normal score {z:.1f}) of the sample "
+                             f"frequencies against probability(k) over k = {kk[0]}..{kk[-1]}, n = {n}")
         elif c == "DistConstant":
             out["distance"] = 0.0 if all(x == xs[0] for x in xs) else 1.0
         else:
